@@ -162,5 +162,25 @@ constexpr auto unique_copy_good(It first, It last, Out dest, Pred pred) -> Out
     return dest;
 }
 
+// PREVBOUND: `!=` against prev(last) without knowing that the range is non-empty
+template <typename It> constexpr auto prev(It it) -> It { return --it; }
+template <typename It, typename Comp>
+constexpr auto exchange_bad(It first, It last, Comp comp) -> void
+{
+    auto const back = fixture::prev(last);
+    for (auto i = first; i != back; ++i) {
+        if (comp(*(i + 1), *i)) { auto t = *i; *i = *(i + 1); *(i + 1) = t; }
+    }
+}
+template <typename It, typename Comp>
+constexpr auto exchange_good(It first, It last, Comp comp) -> void
+{
+    if (first == last) { return; }
+    auto const back = fixture::prev(last);
+    for (auto i = first; i != back; ++i) {
+        if (comp(*(i + 1), *i)) { auto t = *i; *i = *(i + 1); *(i + 1) = t; }
+    }
+}
+
 } // namespace fixture
 #endif
